@@ -8,8 +8,9 @@ CONSTANTS MaxLen, Widths, EmitOn, Alphabet
 VARIABLES text
 vars == <<text>>
 
-Init == text \in UNION {[1..k -> Alphabet] : k \in 0..MaxLen}
-Next == UNCHANGED vars
+\* the environment appends one symbol at a time: the state graph is the prefix tree of all texts up to MaxLen
+Init == text = <<>>
+Next == Len(text) < MaxLen /\ \E a \in Alphabet : text' = Append(text, a)
 Spec == Init /\ [][Next]_vars
 
 PlainOk == \A w \in Widths : P20Plain(text, w, PlainWrap(text, w))
